@@ -413,9 +413,11 @@ def requested_names(ctx):
             n = numbers_of_native(o.value.raw_value)
             if want is None or n["t"].lower() != want:
                 ctx.violation("wrong-curve:generated-key", f"OKPKey.generate_key({name!r}) generated a {n['t']} key", {"requested": name})
-    for size, ok_bits in ((128, 128), (256, 256), (8, 8), (512, 512), (129, None), (7, None), (0, None), (-8, None)):
+    for size, ok_bits in ((128, 128), (256, 256), (8, 8), (512, 512), (129, None), (7, None), (0, None), (-8, None),
+                          # sizes are bits, also where the number could have been meant as octets
+                          (16, 16), (24, 24), (32, 32), (48, 48), (64, 64), (40, 40), (56, 56), (72, 72), (96, 96), (1024, 1024), (2048, 2048), (4096, 4096)):
         ctx.ev()
-        o = call(j.OctKey.generate_key, size)
+        o = call(j.OctKey.generate_key, size) if size % 16 else call(j.JWKRegistry.generate_key, "oct", size)
         ctx.count("requested_name_cases")
         if o.ok:
             got = len(numbers_of_native(o.value.raw_value)["k"]) * 8
